@@ -107,7 +107,9 @@ func (gs *GraphicsState) Restore() error {
 
 // Transform applies a transformation matrix to CTM (cm operator)
 func (gs *GraphicsState) Transform(m model.Matrix) {
-	gs.CTM = gs.CTM.Multiply(m)
+	// cm concatenates m onto the CTM: CTM' = m x CTM (ISO 32000-1, 8.3.4 and
+	// Table 57). The new transformation is applied first, then the previous CTM.
+	gs.CTM = m.Multiply(gs.CTM)
 }
 
 // SetLineWidth sets the line width (w operator)
